@@ -32,7 +32,7 @@ CLAIMS = {
  "C12": dict(text="Proved about the sponge model (any permutation): absorbing a message equals absorbing any 2-split of it (shake128/256 absorb_split), squeezing n bytes = the first n bytes of the block stream, squeezing in two calls = one call (squeeze_split), squeezeblocks = whole blocks of the same stream; rates/round-constant table obligations on the constants regenerated from fips202.rs. Tie: SHAKE model = code = hashlib on every input length 0..3*rate+1, input/output splits, long squeezes, mixed squeezeblocks, absorb_once, stream inits, the permutation on random states. A genuine defect (squeeze index reset per block) was reported by this check and fixed.",
              note="PARTIAL: Keccak-f[1600] itself is not proved equal to the FIPS 202 step maps; it is tied to hashlib (and to the code) on the explored inputs.",
              tech="Lean 4 proof (sponge invariants by induction) + differential tie with hashlib as independent oracle", ref="5/C12"),
- "C04": dict(text="Proved for all six sets and every seed on which the key-generation core succeeds (C04.keygen_relation): the expanded matrix is well formed with entries in [0,q), s1/s2 are in [-4,4], t1 in [0,2^10), t0 in (-2^12,2^12], and t1*2^13 + t0 = A s1 + s2 in Z_q[X]/(X^256+1) (stated at the 256 NTT points in Z/q, which determine the polynomial), every arithmetic step shown free of overflow on the checked-semantics model. Also: seeded generation draws nothing and refuses other lengths; unseeded = seeded on the next 32 tape bytes. Tie: the Lean KeyGen model is validated on every run against 60 OpenSSL 3.5.5 ML-DSA-44/65/87 vectors and the NIST Dilithium vectors, and the code must equal the model byte for byte on KAT, edge and random seeds, seeded and unseeded (RNG tap), raw and API entry points. A genuine defect (ML-DSA-65/87 seed domain separation) was reported by this check and fixed.",
+ "C04": dict(text="Proved for all six sets and every seed on which the key-generation core succeeds (C04.keygen_relation): the expanded matrix is well formed with entries in [0,q), s1/s2 are in [-eta,eta] (eta = 2, 4, 2 for the three levels), t1 in [0,2^10), t0 in (-2^12,2^12], and t1*2^13 + t0 = A s1 + s2 in Z_q[X]/(X^256+1) (stated at the 256 NTT points in Z/q, which determine the polynomial), every arithmetic step shown free of overflow on the checked-semantics model. Also: seeded generation draws nothing and refuses other lengths; unseeded = seeded on the next 32 tape bytes. Tie: the Lean KeyGen model is validated on every run against 60 OpenSSL 3.5.5 ML-DSA-44/65/87 vectors and the NIST Dilithium vectors, and the code must equal the model byte for byte on KAT, edge and random seeds, seeded and unseeded (RNG tap), raw and API entry points. A genuine defect (ML-DSA-65/87 seed domain separation) was reported by this check and fixed.",
              note="PARTIAL: that rho, rho', K are the specified SHAKE outputs of the seed (and the sampler = FIPS 204 RejNTTPoly/RejBoundedPoly) rests on the KAT-anchored tie; packing of the key parts into pk/sk is C16.",
              tech="Lean 4 proof (range analysis + NTT semantics in Z/q, structural) + KAT-anchored differential tie", ref="5/C04"),
  "C11": dict(text="Container identities proved: from_bytes accepts exactly length N and stores the bytes unchanged, any other length is refused, Keypair bytes = sk || pk and parsing splits exactly there, standard lengths. Tie: 18 containers at lengths N, N+-1, 0, 1, sizes of other containers; signing through a container = signing with the bytes.",
@@ -56,9 +56,9 @@ CLAIMS = {
  "C06": dict(text="Proved: an emitted signature is the packing of an iteration in which none of the four rejection tests fired (on z, w0-cs2, ct0, hint count) with c~ = H(mu || w1Encode(w1)). Tie: every signature returned by any entry point (incl. real-RNG hedged/randomized) is decoded by the model with the secret key and the five C06 conditions evaluated numerically; the judge is validated on model-forged signatures of a test-skipping signer.",
              note="PARTIAL: identification of the tested quantities with y = z - c s1, LowBits(Ay - c s2) (ring algebra through the NTT) is evaluated per signature, not yet a theorem.",
              tech="Lean 4 proof (control flow of the iteration) + model-side judge on emitted signatures", ref="5/C06"),
- "C08": dict(text="Proved: wrong length, rejected hint decoding and failed norm gate are answered false (not a fault) before any arithmetic; u16 nonce budget. NOT finished: range analysis of the arithmetic path (verify_total): partial. Tie: overflow-checked and wrapping builds under catch_unwind on adversarial signatures (hint counters/indices, extreme z and t1 patterns, all lengths), identical decisions, honest keygen/sign path in the checked build, samples compared with the checked-semantics model.",
-             note="PARTIAL: totality beyond the gates is observed in the overflow-checked build on the explored inputs.",
-             tech="Lean 4 proof (gates) + checked-build fuzz scans", ref="5/C08"),
+ "C08": dict(text="Proved about the checked-semantics model (overflow, out-of-range index and failed conversion are faults), for all six parameter sets (C08.verify_total, mldsa_verify_total, dil_verify_total): for every public key of PUBLICKEYBYTES bytes, every message, every context and every list of bytes of ANY length offered as a signature, verification returns a boolean: wrong lengths, rejected hint sections and the norm gate answer false before any arithmetic, and on the arithmetic path the decoder ranges, NTT bounds, Montgomery products, reductions, UseHint, w1Encode and the hashes are shown free of faults by range analysis. The honest path: every arithmetic step of key generation (C04.keygen_relation) and of an accepted signing iteration (C01) is shown to succeed. Tie: overflow-checked and wrapping builds under catch_unwind on adversarial signatures (hint counters/indices, extreme z and t1 patterns, all lengths), identical decisions, honest keygen/sign path in the checked build, samples compared with the model.",
+             note="The model's rejection samplers carry a block budget (FUEL) the Rust loops do not have; 'or the budget runs out' is the one extra outcome in the statement (probability < 2^-1000 per call). PARTIAL: a closed totality theorem for signing (all rejected iterations, nonce below the u16 bound) is not stated separately; termination is C01.",
+             tech="Lean 4 proof (range analysis through decode, NTT, reductions, hints, SHAKE call shapes) + checked-build fuzz scans", ref="5/C08"),
  "C09": dict(text="Proved: the library as a machine over an RNG tape: per-operation amounts (32/32/64/0), consumption in call order over any call sequence, output = specification's function of exactly the drawn bytes. Tie (RNG tap hook): logged requests of the real code = model prediction; replaying logged bytes as a script reproduces the output; repeated draws/outputs pairwise distinct, deterministic ones identical.",
              note="That rand::thread_rng is an OS-seeded CSPRNG is trusted (rand's contract); CSPRNG quality is not modelled.",
              tech="Lean 4 proof (tape machine) + hook-based request-log tie", ref="5/C09"),
